@@ -1,0 +1,332 @@
+//go:build verif
+
+// Contracts for package wkt, read by /verif's govc. Comment-only.
+package wkt
+
+// ---------------------------------------------------------------------------
+// C06 (the parts that do not go through the generated LALR driver): the lexer keeps its position inside the
+// text and consistent with its line bookkeeping, so every index into the text is in range and every
+// SyntaxError can be rendered; the layout stack is never empty and its validator panics are unreachable
+// under its invariant and the argument domains the grammar actions use.
+
+//@ func lexPos.advanceOne
+//@   ensures lp.wktPos == old(lp.wktPos) + 1 && lp.linePos == old(lp.linePos) + 1 && lp.lineNum == old(lp.lineNum) && lp.lineStart == old(lp.lineStart)
+//@   modifies *lp
+
+//@ func lexPos.advanceLine
+//@   ensures lp.wktPos == old(lp.wktPos) + 1 && lp.linePos == 0 && lp.lineNum == old(lp.lineNum) + 1 && lp.lineStart == old(lp.wktPos) + 1
+//@   modifies *lp
+
+//@ func wktLex.peek
+//@   requires lexOK(l)
+//@   ensures (l.curPos.wktPos == len(l.wkt) ==> res == 0) && (l.curPos.wktPos < len(l.wkt) ==> res == l.wkt[l.curPos.wktPos])
+//@   modifies nothing
+
+//@ func wktLex.next
+//@   requires lexOK(l)
+//@   ensures lexOK(l) && l.wkt == old(l.wkt) && l.lastPos == old(l.lastPos) && l.curPos.wktPos >= old(l.curPos.wktPos) && l.curPos.wktPos <= old(l.curPos.wktPos) + 1
+//@   ensures l.lytStack == old(l.lytStack) && l.lastErr == old(l.lastErr)
+//@   modifies *l
+
+//@ func wktLex.trimLeft
+//@   requires lexOK(l)
+//@   ensures lexOK(l) && l.wkt == old(l.wkt) && l.lastPos == old(l.lastPos) && l.lytStack == old(l.lytStack) && l.lastErr == old(l.lastErr)
+//@   modifies *l
+//@   decreases *
+//@   loop 1:
+//@     invariant lexOK(l) && l.wkt == old(l.wkt) && l.lastPos == old(l.lastPos) && l.lytStack == old(l.lytStack) && l.lastErr == old(l.lastErr)
+
+//@ func wktLex.setSyntaxError
+//@   requires lexOK(l)
+//@   ensures lexOK(l) && l.wkt == old(l.wkt) && l.curPos == old(l.curPos) && l.lastPos == old(l.lastPos) && l.lytStack == old(l.lytStack)
+//@   ensures old(l.lastErr) == nil ==> istype(l.lastErr, ptr_SyntaxError) && unbox(l.lastErr, ptr_SyntaxError) != nil && errOK(unbox(l.lastErr, ptr_SyntaxError))
+//@   ensures old(l.lastErr) != nil ==> l.lastErr == old(l.lastErr)
+//@   ensures l.lastErr != nil
+//@   modifies *l
+
+//@ func wktLex.setError
+//@   ensures (old(l.lastErr) == nil ==> l.lastErr == err) && (old(l.lastErr) != nil ==> l.lastErr == old(l.lastErr))
+//@   ensures l.wkt == old(l.wkt) && l.curPos == old(l.curPos) && l.lastPos == old(l.lastPos) && l.lytStack == old(l.lytStack)
+//@   modifies *l
+
+//@ func wktLex.Error
+//@   requires lexOK(l)
+//@   ensures lexOK(l) && l.wkt == old(l.wkt) && l.curPos == old(l.curPos) && l.lastPos == old(l.lastPos) && l.lytStack == old(l.lytStack)
+//@   ensures l.lastErr != nil
+//@   modifies *l
+
+//@ func wktLex.keyword
+//@   requires lexOK(l)
+//@   ensures lexOK(l) && l.wkt == old(l.wkt) && l.lytStack == old(l.lytStack)
+//@   modifies *l
+//@   decreases *
+//@   loop 1:
+//@     invariant lexOK(l) && l.wkt == old(l.wkt) && l.lastPos == old(l.lastPos) && l.lytStack == old(l.lytStack) && l.lastErr == old(l.lastErr)
+
+//@ func wktLex.num
+//@   requires lexOK(l) && yylval != nil
+//@   ensures lexOK(l) && l.wkt == old(l.wkt) && l.lytStack == old(l.lytStack)
+//@   modifies *l, *yylval
+//@   decreases *
+//@   loop 1:
+//@     invariant lexOK(l) && l.wkt == old(l.wkt) && l.lastPos == old(l.lastPos) && l.lytStack == old(l.lytStack) && l.lastErr == old(l.lastErr)
+
+//@ func wktLex.Lex
+//@   requires lexOK(l) && yylval != nil
+//@   ensures lexOK(l) && l.wkt == old(l.wkt) && l.lytStack == old(l.lytStack)
+//@   modifies *l, *yylval
+
+// a SyntaxError built from a consistent position can always be rendered: every slice of the text and the
+// padding count are in range
+//@ func SyntaxError.Error
+//@   requires errOK(e)
+//@   modifies nothing
+
+// ---------------------------------------------------------------------------
+// the layout stack
+
+//@ func layoutStack.assertNotEmpty
+//@   requires len(s.data) >= 1
+//@   modifies nothing
+
+//@ func layoutStack.atTopLevel
+//@   ensures res <==> len(s.data) == 1
+//@   modifies nothing
+
+//@ func layoutStack.assertNoGeometryCollectionFramesLeft
+//@   requires len(s.data) == 1
+//@   modifies nothing
+
+//@ func layoutStack.topLayout
+//@   requires len(s.data) >= 1
+//@   ensures res == s.data[len(s.data)-1].layout
+//@   modifies nothing
+
+//@ func layoutStack.topInBaseTypeCollection
+//@   requires len(s.data) >= 1
+//@   ensures res == s.data[len(s.data)-1].inBaseTypeCollection
+//@   modifies nothing
+
+//@ func layoutStack.topNextPointMustBeEmpty
+//@   requires len(s.data) >= 1
+//@   ensures res == s.data[len(s.data)-1].nextPointMustBeEmpty
+//@   modifies nothing
+
+// the grammar pushes a frame for a collection keyword: no suffix (inherit), Z, M or ZM - never plain XY
+//@ func layoutStack.push
+//@   requires stkOKd(s.data) && (layout == 0 || layout == 2 || layout == 3 || layout == 4)
+//@   requires layout != 0 ==> s.data[len(s.data)-1].layout == 0 || s.data[len(s.data)-1].layout == layout
+//@   ensures stkOKd(s.data) && len(s.data) == old(len(s.data)) + 1
+//@   ensures s.data[len(s.data)-1].layout == (layout == 0 ? old(s.data[len(s.data)-1].layout) : layout) && !s.data[len(s.data)-1].nextPointMustBeEmpty
+//@   ensures s.data[len(s.data)-1].inBaseTypeCollection == (layout == 0 ? old(s.data[len(s.data)-1].inBaseTypeCollection) : false)
+//@   ensures forall k int :: 0 <= k && k < old(len(s.data)) ==> s.data[k].layout == old(s.data[k].layout) && s.data[k].inBaseTypeCollection == old(s.data[k].inBaseTypeCollection) && s.data[k].nextPointMustBeEmpty == old(s.data[k].nextPointMustBeEmpty)
+//@   ensures fresh(s.data) || (base(s.data) == old(base(s.data)) && off(s.data) == old(off(s.data)) && cap(s.data) == old(cap(s.data)))
+//@   modifies *s, spare(s.data)
+
+// only frames pushed for a collection are popped
+//@ func layoutStack.pop
+//@   requires stkOKd(s.data) && len(s.data) >= 2
+//@   ensures stkOKd(s.data) && len(s.data) == old(len(s.data)) - 1 && res == old(s.data[len(s.data)-1].layout) && (s.data[len(s.data)-1].layout != 0 ==> res == s.data[len(s.data)-1].layout) && 0 <= res && res <= 4 && base(s.data) == old(base(s.data)) && off(s.data) == old(off(s.data)) && cap(s.data) == old(cap(s.data))
+//@   modifies *s
+
+//@ func layoutStack.setTopLayout
+//@   requires stkOKd(s.data) && 1 <= layout && layout <= 4 && s.data[len(s.data)-1].layout == 0
+//@   ensures stkOKd(s.data) && len(s.data) == old(len(s.data)) && s.data[len(s.data)-1].layout == layout && s.data == old(s.data)
+//@   modifies s.data[len(s.data)-1:len(s.data)]
+
+//@ func layoutStack.setTopNextPointMustBeEmpty
+//@   requires stkOKd(s.data) && s.data[len(s.data)-1].layout == 3 && (nextPointMustBeEmpty ==> !s.data[len(s.data)-1].inBaseTypeCollection)
+//@   ensures stkOKd(s.data) && s.data[len(s.data)-1].nextPointMustBeEmpty == nextPointMustBeEmpty && s.data == old(s.data)
+//@   modifies s.data[len(s.data)-1:len(s.data)]
+
+//@ func makeLayoutStack
+//@   ensures stkOKd(res.data) && len(res.data) == 1 && fresh(res.data) && res.data[0].layout == 0 && res.data[0].inBaseTypeCollection
+//@   modifies nothing
+
+// ---------------------------------------------------------------------------
+// layout tables
+
+//@ func assertValidLayout
+//@   requires 0 <= layout && layout <= 4
+//@   modifies nothing
+
+//@ func isCompatibleLayout
+//@   requires 0 <= outerLayout && outerLayout <= 4 && 0 <= innerLayout && innerLayout <= 4
+//@   ensures res <==> (outerLayout == innerLayout || outerLayout == 0)
+//@   modifies nothing
+
+//@ func isValidStrideForLayout
+//@   requires 0 <= layout && layout <= 4
+//@   ensures res <==> (layout == 0 || stride == wstride(layout))
+//@   modifies nothing
+
+//@ func defaultLayoutForStride
+//@   requires 2 <= stride && stride <= 4
+//@   ensures res == (stride == 2 ? 1 : (stride == 3 ? 2 : 4)) && wstride(res) == stride
+//@   modifies nothing
+
+//@ func layoutName
+//@   requires 0 <= layout && layout <= 4
+//@   modifies nothing
+
+// ---------------------------------------------------------------------------
+// the helpers the grammar actions call
+
+//@ func wktLex.curLayout
+//@   requires len(l.lytStack.data) >= 1
+//@   ensures res == topL(l)
+//@   modifies nothing
+
+//@ func wktLex.currentlyInBaseTypeCollection
+//@   requires len(l.lytStack.data) >= 1
+//@   ensures res == l.lytStack.data[len(l.lytStack.data)-1].inBaseTypeCollection
+//@   modifies nothing
+
+//@ func wktLex.nextScannedPointMustBeEmpty
+//@   requires len(l.lytStack.data) >= 1
+//@   ensures res == l.lytStack.data[len(l.lytStack.data)-1].nextPointMustBeEmpty
+//@   modifies nothing
+
+//@ func wktLex.setParseError
+//@   requires wlOK(l)
+//@   ensures wlOK(l) && l.lastErr != nil && l.lytStack == old(l.lytStack)
+//@   modifies *l
+
+//@ func wktLex.setLexError
+//@   requires wlOK(l)
+//@   ensures wlOK(l) && l.lastErr != nil
+//@   modifies *l
+
+//@ func wktLex.setIncorrectStrideError
+//@   requires wlOK(l)
+//@   ensures wlOK(l) && l.lastErr != nil && l.lytStack == old(l.lytStack)
+//@   modifies *l
+
+//@ func wktLex.setIncorrectLayoutError
+//@   requires wlOK(l) && 0 <= incorrectLayout && incorrectLayout <= 4
+//@   ensures wlOK(l) && l.lastErr != nil && l.lytStack == old(l.lytStack)
+//@   modifies *l
+
+//@ func wktLex.setIncorrectUsageOfBaseTypeInsteadOfMVariantInGeometryCollectionError
+//@   requires wlOK(l)
+//@   ensures wlOK(l) && l.lastErr != nil && l.lytStack == old(l.lytStack)
+//@   modifies *l
+
+//@ func wktLex.setLayoutIfNoLayout
+//@   requires wlOK(l) && 1 <= layout && layout <= 4
+//@   ensures wlOK(l) && topL(l) == (old(topL(l)) == 0 ? layout : old(topL(l))) && l.lytStack == old(l.lytStack)
+//@   modifies l.lytStack.data[len(l.lytStack.data)-1:len(l.lytStack.data)]
+
+// a point of 2, 3 or 4 ordinates: accepted exactly when the layout decided so far has that stride (or none is
+// decided, and then the default layout of the stride is)
+//@ func wktLex.validateStrideAndSetDefaultLayoutIfNoLayout
+//@   requires wlOK(l) && 2 <= stride && stride <= 4
+//@   ensures wlOK(l) && (res <==> old(topL(l)) == 0 || wstride(old(topL(l))) == stride)
+//@   ensures res ==> wstride(topL(l)) == stride && (old(topL(l)) != 0 ==> topL(l) == old(topL(l)))
+//@   ensures !res ==> l.lastErr != nil
+//@   modifies *l, l.lytStack.data[len(l.lytStack.data)-1:len(l.lytStack.data)]
+
+//@ func wktLex.validateNonEmptyGeometryAllowed
+//@   requires wlOK(l)
+//@   ensures wlOK(l) && (res <==> !old(l.lytStack.data[len(l.lytStack.data)-1].nextPointMustBeEmpty)) && (!res ==> l.lastErr != nil)
+//@   modifies *l
+
+// a keyword with a Z, M or ZM suffix: accepted exactly when no layout is decided or the same one is
+//@ func wktLex.validateAndSetLayoutIfNoLayout
+//@   requires wlOK(l) && 1 <= layout && layout <= 4
+//@   ensures wlOK(l) && (res <==> old(topL(l)) == 0 || old(topL(l)) == layout) && (res ==> topL(l) == layout) && (!res ==> l.lastErr != nil)
+//@   modifies *l, l.lytStack.data[len(l.lytStack.data)-1:len(l.lytStack.data)]
+
+// [grammar] the top-level frame never has a decided XYM layout when a further base-type keyword arrives (the
+// grammar admits one geometry at the top level): a precondition the LALR driver is not checked against
+//@ func wktLex.validateBaseGeometryTypeAllowed
+//@   requires wlOK(l) && !(len(l.lytStack.data) == 1 && topL(l) == 3)
+//@   ensures wlOK(l) && (res <==> !(old(l.lytStack.data[len(l.lytStack.data)-1].inBaseTypeCollection) && old(topL(l)) == 3)) && (!res ==> l.lastErr != nil)
+//@   modifies *l, l.lytStack.data[len(l.lytStack.data)-1:len(l.lytStack.data)]
+
+//@ func wktLex.validateBaseTypeEmptyAllowed
+//@   requires wlOK(l)
+//@   ensures wlOK(l) && (!res ==> l.lastErr != nil)
+//@   ensures res <==> !old(l.lytStack.data[len(l.lytStack.data)-1].inBaseTypeCollection) || old(topL(l)) <= 1
+//@   ensures res && old(l.lytStack.data[len(l.lytStack.data)-1].inBaseTypeCollection) ==> topL(l) == 1
+//@   modifies *l, l.lytStack.data[len(l.lytStack.data)-1:len(l.lytStack.data)]
+
+// the grammar pushes for GEOMETRYCOLLECTION (0), ...Z (2), ...M (3), ...ZM (4)
+//@ func wktLex.validateAndPushLayoutStackFrame
+//@   requires wlOK(l) && (layout == 0 || layout == 2 || layout == 3 || layout == 4)
+//@   ensures wlOK(l) && (res <==> layout == 0 || old(topL(l)) == 0 || old(topL(l)) == layout) && (!res ==> l.lastErr != nil && l.lytStack == old(l.lytStack))
+//@   ensures res ==> len(l.lytStack.data) == old(len(l.lytStack.data)) + 1 && topL(l) == (layout == 0 ? old(topL(l)) : layout)
+//@   modifies *l, spare(l.lytStack.data)
+
+// [grammar] a frame is popped only after one was pushed and only after its layout has been decided (every
+// member, EMPTY included, decides it): preconditions the LALR driver is not checked against
+//@ func wktLex.validateAndPopLayoutStackFrame
+//@   requires wlOK(l) && len(l.lytStack.data) >= 2 && topL(l) != 0
+//@   ensures wlOK(l) && res && len(l.lytStack.data) == old(len(l.lytStack.data)) - 1 && topL(l) == old(topL(l))
+//@   modifies *l, l.lytStack.data[len(l.lytStack.data)-2:len(l.lytStack.data)-1]
+
+// [grammar] pushes and pops are balanced when the start symbol is reduced
+//@ func wktLex.validateLayoutStackAtEnd
+//@   requires wlOK(l) && len(l.lytStack.data) == 1
+//@   ensures res
+//@   modifies nothing
+
+// ---------------------------------------------------------------------------
+// the validity rules of the statement
+
+//@ func wktLex.isValidPoint
+//@   requires wlOK(l)
+//@   ensures wlOK(l) && (!res ==> l.lastErr != nil)
+//@   ensures res <==> 2 <= len(flatCoords) && len(flatCoords) <= 4 && (old(topL(l)) == 0 || wstride(old(topL(l))) == len(flatCoords))
+//@   ensures res ==> wstride(topL(l)) == len(flatCoords)
+//@   modifies *l, l.lytStack.data[len(l.lytStack.data)-1:len(l.lytStack.data)]
+
+// called after the points were accepted, so the layout is decided
+//@ func wktLex.isValidLineString
+//@   requires wlOK(l) && topL(l) != 0
+//@   ensures wlOK(l) && (res <==> len(flatCoords) >= 2 * wstride(topL(l))) && (!res ==> l.lastErr != nil) && l.lytStack == old(l.lytStack)
+//@   modifies *l
+
+//@ func wktLex.isValidPolygonRing
+//@   floats opaque
+//@   requires wlOK(l) && topL(l) != 0
+//@   ensures wlOK(l) && (!res ==> l.lastErr != nil) && l.lytStack == old(l.lytStack)
+//@   ensures res ==> len(flatCoords) >= 4 * wstride(topL(l))
+//@   ensures res ==> feq(flatCoords[0], flatCoords[len(flatCoords)-wstride(topL(l))]) && feq(flatCoords[1], flatCoords[len(flatCoords)-wstride(topL(l))+1])
+//@   ensures res && (topL(l) == 2 || topL(l) == 4) ==> feq(flatCoords[2], flatCoords[len(flatCoords)-wstride(topL(l))+2])
+//@   ensures !res ==> len(flatCoords) < 4 * wstride(topL(l)) || !feq(flatCoords[0], flatCoords[len(flatCoords)-wstride(topL(l))]) || !feq(flatCoords[1], flatCoords[len(flatCoords)-wstride(topL(l))+1]) || ((topL(l) == 2 || topL(l) == 4) && !feq(flatCoords[2], flatCoords[len(flatCoords)-wstride(topL(l))+2]))
+//@   modifies *l
+//@   loop 1: invariant stride == wstride(topL(l)) && dimensions == ((topL(l) == 2 || topL(l) == 4) ? 3 : 2) && len(flatCoords) >= 4 * stride
+//@   loop 1: invariant 0 <= idx && idx <= dimensions && wlOK(l) && l.lytStack == old(l.lytStack) && l.lastErr == old(l.lastErr)
+//@   loop 1: invariant (idx > 0 ==> feq(flatCoords[0], flatCoords[len(flatCoords)-stride])) && (idx > 1 ==> feq(flatCoords[1], flatCoords[len(flatCoords)-stride+1])) && (idx > 2 ==> feq(flatCoords[2], flatCoords[len(flatCoords)-stride+2]))
+
+// ---------------------------------------------------------------------------
+// entry state and the offset arithmetic of the grammar actions
+
+//@ func newWKTLex
+//@   ensures res != nil && fresh(res) && wlOK(res) && len(res.lytStack.data) == 1 && topL(res) == 0 && res.lastErr == nil && res.wkt == wkt
+//@   modifies nothing
+
+//@ func makeGeomFlatCoordsRepr
+//@   ensures res.flatCoords == flatCoords && len(res.ends) == 1 && res.ends[0] == len(flatCoords) && fresh(res.ends) && endsMono(res.ends, len(res.flatCoords))
+//@   modifies nothing
+
+// joining two lists of parts: the second list's offsets are re-based behind the first's (in place), so the
+// joined offsets are again non-decreasing and finish at the end of the joined ordinates
+//@ func appendGeomFlatCoordsReprs
+//@   requires endsMono(p1.ends, len(p1.flatCoords)) && endsMono(p2.ends, len(p2.flatCoords)) && base(p1.ends) != base(p2.ends)
+//@   ensures len(res.flatCoords) == len(p1.flatCoords) + len(p2.flatCoords) && len(res.ends) == len(p1.ends) + len(p2.ends)
+//@   ensures endsMono(res.ends, len(res.flatCoords))
+//@   ensures forall k int :: 0 <= k && k < len(p1.ends) ==> res.ends[k] == old(p1.ends[k])
+//@   ensures forall k int :: 0 <= k && k < len(p2.ends) ==> res.ends[len(p1.ends)+k] == old(p2.ends[k]) + len(p1.flatCoords)
+//@   modifies p2.ends[:], spare(p1.ends), spare(p1.flatCoords)
+//@   at exit: assert forall k int :: 0 <= k && k < len(p1.ends) ==> res.ends[k] == old(p1.ends[k])
+//@   at exit: assert forall i int :: len(p1.ends) <= i && i < len(res.ends) ==> res.ends[i] == old(p2.ends[i-len(p1.ends)]) + len(p1.flatCoords)
+//@   at exit: assert forall i int :: 0 < i && i < len(p1.ends) ==> 0 <= res.ends[i-1] && res.ends[i-1] <= res.ends[i]
+//@   at exit: assert forall i int :: len(p1.ends) < i && i < len(res.ends) ==> res.ends[i-1] <= res.ends[i]
+//@   at exit: assert len(p1.ends) > 0 && len(p2.ends) > 0 ==> res.ends[len(p1.ends)-1] <= res.ends[len(p1.ends)]
+//@   loop 1:
+//@     invariant 0 <= idx && idx <= len(p2.ends) && len(p1.ends) > 0 && p1LastEnd == len(p1.flatCoords) && p1.ends == p10.ends && p2.ends == p20.ends && p1.flatCoords == p10.flatCoords && p2.flatCoords == p20.flatCoords
+//@     invariant forall k int :: 0 <= k && k < idx ==> p2.ends[k] == old(p20.ends[k]) + p1LastEnd
+//@     invariant forall k int :: idx <= k && k < len(p2.ends) ==> p2.ends[k] == old(p20.ends[k])
+//@     invariant forall k int :: 0 <= k && k < len(p1.ends) ==> p1.ends[k] == old(p10.ends[k])
